@@ -1,3 +1,5 @@
+CONSTANTS
+ K = 6
 INIT Init
 NEXT Next
 CHECK_DEADLOCK FALSE
